@@ -148,6 +148,25 @@ fn check(s: &str, rep: &mut Report) {
             }
         }
     }
+    // spans of two different input objects that start at the same address (`s` and a prefix of `s`)
+    for k in 0..n {
+        if !s.is_char_boundary(k) {
+            continue;
+        }
+        let pre = &s[..k];
+        for &(a, b) in &valid {
+            if b > k {
+                continue;
+            }
+            rep.cases += 1;
+            let (p1, p2) = (pest::Span::new(s, a, b).unwrap(), pest::Span::new(pre, a, b).unwrap());
+            let (t1, t2) = (pest_typed::Span::new(s, a, b).unwrap(), pest_typed::Span::new(pre, a, b).unwrap());
+            let eq = t1 == t2;
+            if eq != (p1 == p2) || (eq && h(&t1) != h(&t2)) {
+                rep.violation(viol("C13", "span-eq-hash-across-objects", s, format!("Span::new(s,{},{}) == Span::new(&s[..{}],{},{})", a, b, k, a, b), a, b, format!("{}", p1 == p2), format!("eq={} hash_eq={}", eq, h(&t1) == h(&t2)), String::new()));
+            }
+        }
+    }
     if rep.samples.len() < 2 && s.contains('\n') && n >= 3 && s.is_char_boundary(1) {
         let t = pest_typed::Span::new(s, 1, n).unwrap();
         let mut j = J::obj();
@@ -165,5 +184,14 @@ pub fn run(o: &Opts) -> Report {
     let mut rep = par(&strings, |s, rep| check(s, rep));
     rep.max_len_done = n;
     rep.rules = strings.len() as u64;
+    // characters by encoding, each in three small contexts
+    let sweep = crate::common::encoding_sweep(o.thorough);
+    let r3 = par(&sweep, |c, rep| {
+        for s in [format!("{}", c), format!("a{}\n{}", c, c), format!("{}\r\na", c)] {
+            check(&s, rep);
+        }
+    });
+    rep.cells.insert("characters_swept_by_encoding".into(), sweep.len() as u64);
+    rep.merge(r3, 8);
     rep
 }
